@@ -24,6 +24,24 @@ CLAIMED = {
     "C06": ("fault_enumeration", "runtime monitor with fault injection at every radio-call position; every frame handed to the radio is decoded by the reference codec and counters checked for strict increase",
             "Base histories over the event alphabet are re-run once per radio call with an injected error at that call (plus sampled double faults and near-2^32 sessions) on nb, async and async+ClassC front-ends; the full counter of every uplink is recovered by MIC verification and must strictly increase until SessionExpired.",
             "Trusts the reference codec; a frame passed to tx counts as handed to the radio even if the call then errors; guarantee ends once expiry was reported.", "6/C06"),
+    "C10": ("exploration", "runtime monitor at the radio boundary: every RX1/RX2/Class C RfConfig and timer request compared with independent regional tables applied to the parameters in force (hook snapshot) and the TxConfig actually used",
+            "Grid of region x front-end x uplink DR x RX1DROffset x RxDelay class with RX2 overrides, DlChannel remaps, lead/TX-done times, all 72 fixed-plan channels via the scripted RNG, join attempts with forced join rates, and histories with parameter changes in flight.",
+            "Regional tables are transcriptions (set-valued where editions differ); parameters in force come from the verif-hooks snapshot.", "6/C10"),
+    "C11": ("exploration", "runtime monitor: JoinRequest/JoinAccept judged by the reference codec and regional tables; state read through public API + snapshot; first uplink decoded under the derived keys",
+            "Every DLSettings byte x region x front-end, RxDelay 0..255, CFList type 0/1/RFU with in-band/zero/out-of-band/random contents, delivery in RX1/RX2/never/after corrupted or wrong-key copies/after Class C noise, failed attempts first, re-join from joined.",
+            "Trusts reference codec and regional tables; optional data rates and frequencies between the inner and the widest band are accepted either way.", "6/C11"),
+    "C12": ("exploration", "runtime monitor: step-by-step executable reference model of header bits and ADR back-off over long histories; uplinks decoded by the reference codec",
+            "Histories of 100-600 uplinks per region/front-end with downlinks placed around n=64/96/128, confirmed/rejected/Class C downlinks, ADR toggles and rate overrides; DevAddr, MType, ACK, ADR, ADRACKReq and data rate compared at every uplink.",
+            "n-dependent comparisons suspended between an ADR toggle and the next accepted downlink; two model states while the statement leaves n open by one (Class C downlink before the uplink's own windows).", "6/C12"),
+    "C15": ("exploration", "exhaustive differential runtime monitor: calculator and every driver's LDRO decision vs exact-rational 16.38 ms rule, plus the bit actually written on SPI decoded by an independent chip decoder",
+            "All 8 SF x 10 BW cells x 6 chip variants x coding rates x two frequency bands, exhaustive in both tiers.",
+            "One cell (SF8/15.6 kHz) is set-valued for the reference but must be identical across implementations; datasheet register/command layout for decoding the written bit.", "6/C15"),
+    "C16": ("exploration", "exhaustive differential runtime monitor: time_on_air_us vs the Semtech formula in i128 for all 42,106,880 inputs; overflow-checked build; monotonicity",
+            "Complete enumeration in both tiers (8 SF x 10 BW x 4 CR x 2 header modes x 256 lengths x 257 preamble options).",
+            "Formula transcription (CRC on, DE = crate's ldro, t_sym truncated to the microsecond as documented).", "6/C16"),
+    "C17": ("exploration", "runtime monitor: SPI writes of the real drivers decoded with datasheet formulas (independent decoder) and compared with the request; exhaustive raw status sweeps",
+            "Every 1 Hz of the LoRaWAN bands + stride over 137-1020 MHz (thorough: every 1 Hz), every power -128..127 and i32 extremes per PA path/variant/band, all 65536 symbol counts, adapter margins 0..1000 ms per (SF,BW), all 2^24 SX126x status triples and 2^16 SX127x pairs.",
+            "Datasheet formulas; set-valued where datasheet gives two numbers (listed in evidence assumptions); LR11xx power only clamping/monotonic clauses.", "6/C17"),
 }
 
 NOT_YET = "monitor not built yet in this revision (planned in DESIGN.md section 6)"
